@@ -73,6 +73,24 @@ fn validate_use_of_arguments_for_client_type<TCompilationProfile: CompilationPro
         }
     };
 
+    // The default value of a variable must be a value of the variable's type
+    for variable_definition in variable_definitions.iter() {
+        if let Some(default_value) = variable_definition.default_value.as_ref() {
+            maybe_push_errors(
+                errors,
+                value_satisfies_type(
+                    db,
+                    default_value
+                        .clone()
+                        .map(NonConstantValue::from)
+                        .reference(),
+                    variable_definition.type_.item.reference(),
+                    &[],
+                ),
+            );
+        }
+    }
+
     let selection_set =
         match selectable_reader_selection_set(db, parent_entity_name, client_selectable_name) {
             Ok(selection_set) => selection_set.lookup(db),
